@@ -1126,7 +1126,8 @@ func cliFalsifier(w *World, fn *ssa.Function, r vcResult) *Counterexample {
 					continue
 				}
 				out, code := call(ec.name, "sort", arg)
-				if code != 0 || out != fmt.Sprintf("%q\n", arg) {
+				// String() returns the input text up to surrounding white space (C18)
+				if code != 0 || (out != fmt.Sprintf("%q\n", arg) && out != fmt.Sprintf("%q\n", strings.TrimSpace(arg))) {
 					fmt.Printf("VERIF-CX univers %s sort %q printed %q (exit %d), want the quoted input on one line\n", ec.name, arg, out, code)
 					return
 				}
